@@ -2,7 +2,7 @@
    producers, the pipeline stages of both packers, pack flushes and the two writer
    threads (a superset of the schedules the real thread pools can produce). *)
 From Verif.Base Require Import Tactics.
-From Verif.C13 Require Import Extracted Model Proofs Proofs2.
+From Verif.C13 Require Import Extracted Model Proofs Proofs2 Walker ProofsW ProofsW2.
 Local Open Scope nat_scope.
 
 (* Every id handed to a packer can be found by the indexer at the end of every complete
@@ -91,3 +91,40 @@ Theorem internal_step_decreases : forall s e s',
   is_send e = false -> step s e = Some s' -> measure s' < measure s.
 Proof. exact internal_step_decreases_lemma. Qed.
 Print Assumptions internal_step_decreases.
+
+(* ---- the parallel tree walker (blob/tree.rs TreeStreamerOnce: prune, check, copy) ----
+
+   No deadlock: with the channel capacities and the number of loader threads found in the
+   source (queue_in unbounded), in every reachable state of the walker - for every tree graph,
+   every set of roots and every interleaving of the consumer and the loader threads - either
+   the walk is complete or some thread can take a step. *)
+Theorem tree_walker_never_stuck : forall ch roots s,
+  wreach ch wcfg_src roots s -> wstuck ch wcfg_src s = false.
+Proof. exact tree_walker_never_stuck_lemma. Qed.
+Print Assumptions tree_walker_never_stuck.
+
+(* ... for any number of loaders >= 1 and any result-queue capacity >= 1, as long as the
+   pending queue is unbounded. *)
+Theorem walker_never_stuck_any_capacities : forall ch c roots s,
+  in_cap c = None -> 1 <= out_cap c -> 1 <= loaders c ->
+  wreach ch c roots s -> wstuck ch c s = false.
+Proof. exact walker_never_stuck_gen. Qed.
+Print Assumptions walker_never_stuck_any_capacities.
+
+(* A bounded pending queue can deadlock (the consumer is its only producer and the only
+   consumer of the result queue): a reachable, non-final state in which no thread can move. *)
+Theorem walker_bounded_in_queue_refuted :
+  exists ch c roots s, in_cap c <> None /\ wreach ch c roots s /\ wstuck ch c s = true.
+Proof. exact walker_bounded_in_queue_refuted_lemma. Qed.
+Print Assumptions walker_bounded_in_queue_refuted.
+
+(* Termination: over every finite tree graph (U closed under children, roots in U) every step
+   of every thread strictly decreases a natural-number measure; together with
+   tree_walker_never_stuck every schedule ends, after at most `wmeasure U ch (winit ..)`
+   steps, in a final state. *)
+Theorem walker_step_decreases : forall U ch c roots s e s',
+  NoDup U -> incl roots U -> (forall x, In x U -> incl (ch x) U) ->
+  wreach ch c roots s -> wstep ch c s e = Some s' ->
+  wmeasure U ch s' < wmeasure U ch s.
+Proof. exact walker_step_decreases_lemma. Qed.
+Print Assumptions walker_step_decreases.
